@@ -191,6 +191,16 @@ def _agree(a, b, tolerant):
     if a.ill or b.ill:
         return SKIP
     approx = a.approx or b.approx
+    if tolerant == "tight":
+        # one rewrite step, every double standing for its own binary value: the two sides differ by the
+        # rounding of the few floating-point operations of that step only (2^-53 of each result, carried
+        # through the expression: bounded by a small multiple of 2^-53 * scale).  2^-40 * scale is far
+        # outside rounding and far inside the ordinary tolerance.  Exact rationals only.
+        if approx:
+            return SKIP
+        if a.v == b.v:
+            return SAME
+        return DIFF if abs(a.v - b.v) > max(a.s, b.s) / 2 ** 40 else SKIP
     if not approx:
         if a.v == b.v:
             return SAME
